@@ -116,13 +116,18 @@ func patchOverlay(repo, patchFile string) (map[string][]byte, bool) {
 	if err != nil {
 		return nil, false
 	}
-	var files []string
-	for _, line := range strings.Split(string(b), "\n") {
+	var files, deleted []string
+	lines := strings.Split(string(b), "\n")
+	for li, line := range lines {
 		if strings.HasPrefix(line, "+++ b/") {
 			files = append(files, strings.TrimSpace(strings.TrimPrefix(line, "+++ b/")))
 		}
+		// a file the change removes (its declarations moved elsewhere): '--- a/f' followed by '+++ /dev/null'
+		if strings.HasPrefix(line, "+++ /dev/null") && li > 0 && strings.HasPrefix(lines[li-1], "--- a/") {
+			deleted = append(deleted, strings.TrimSpace(strings.TrimPrefix(lines[li-1], "--- a/")))
+		}
 	}
-	if len(files) == 0 {
+	if len(files)+len(deleted) == 0 {
 		return nil, false
 	}
 	tmp, err := os.MkdirTemp("", "cachelint-seed-")
@@ -141,6 +146,24 @@ func patchOverlay(repo, patchFile string) (map[string][]byte, bool) {
 			return nil, false
 		}
 	}
+	delPkg := map[string]string{}
+	for _, f := range deleted {
+		src, err := os.ReadFile(filepath.Join(repo, f))
+		if err != nil {
+			return nil, false
+		}
+		dst := filepath.Join(tmp, f)
+		os.MkdirAll(filepath.Dir(dst), 0o755)
+		if os.WriteFile(dst, src, 0o644) != nil {
+			return nil, false
+		}
+		for _, l := range strings.Split(string(src), "\n") {
+			if strings.HasPrefix(l, "package ") {
+				delPkg[f] = strings.TrimSpace(l)
+				break
+			}
+		}
+	}
 	cmd := exec.Command("patch", "-p1", "-s", "-f", "-i", patchFile)
 	cmd.Dir = tmp
 	if err := cmd.Run(); err != nil {
@@ -153,6 +176,13 @@ func patchOverlay(repo, patchFile string) (map[string][]byte, bool) {
 			return nil, false
 		}
 		ov[filepath.Join(repo, f)] = nb
+	}
+	// a removed file is overlaid by its bare package clause (the loader cannot unlist a file)
+	for _, f := range deleted {
+		if delPkg[f] == "" {
+			return nil, false
+		}
+		ov[filepath.Join(repo, f)] = []byte(delPkg[f] + "\n")
 	}
 	return ov, true
 }
